@@ -132,12 +132,7 @@ def ofJVal : JVal → Option Rec
 def decJson (text : Bytes) : Option Rec := (Json.parse text) >>= ofJVal
 
 /-- Split at every tab. -/
-def splitTab (b : Bytes) : List Bytes :=
-  b.foldr (fun c acc =>
-    if c = TAB then [] :: acc
-    else match acc with
-      | [] => [[c]]
-      | l :: ls => (c :: l) :: ls) [[]]
+def splitTab (b : Bytes) : List Bytes := Bytes.splitOn (fun c => c == TAB) b
 
 variable (H : Algo → Bytes → Bytes)
 
